@@ -42,7 +42,10 @@ def run(ctx):
     __import__("os").environ.setdefault("VERIF_TLC_HEAP", "3g")
     ctx.build()
     quick = ctx.quick()
-    depth = dict(Contract=4, Hold=4, Asset=4, Cand=3, Two=4, Nest=8) if quick else dict(Contract=5, Hold=5, Asset=5, Cand=4, Two=5, Nest=10)
+    depth = dict(Contract=4, Hold=4, Asset=4, Cand=3, Two=4, Nest=8, Create=6) if quick else \
+        dict(Contract=5, Hold=5, Asset=5, Cand=4, Two=5, Nest=10, Create=7)
+    # Create: [write]; Snapshot; 1-2 creating / modifying writes; Revert; [write]; Seal - one outer write in the quick tier, two in thorough
+    shape = {} if quick else {"MaxOuter = 1": "MaxOuter = 2"}
     limit = 0
     pool = concurrent.futures.ThreadPoolExecutor(16)    # >= number of TLC runs: all start at their own offset
 
@@ -50,7 +53,7 @@ def run(ctx):
     def design(i_g):
         i, g = i_g
         time.sleep(0.1 * i)     # distinct TLC metadirs (named by millisecond)
-        cfg = setcfg(ctx, "MCJournal_%s.cfg" % g, "MCJournal_%s.run.cfg" % g, **{"MaxSteps = 6": "MaxSteps = %d" % depth[g]})
+        cfg = setcfg(ctx, "MCJournal_%s.cfg" % g, "MCJournal_%s.run.cfg" % g, **dict({"MaxSteps = 6": "MaxSteps = %d" % depth[g]}, **(shape if g == "Create" else {})))
         dot = ctx.path("dot", g + ".dot")
         ctx.tlc_exhaustive("MCJournal", cfg, timeout=900, dump=dot, workers=4)
         return g, dot
